@@ -200,6 +200,62 @@ fn probe(sc: &Value) -> Value {
                 }
             }
         }
+    } else if kind == "queue-emit-calls-sink" {
+        // C10: emit never runs the wrapped sink on the caller's thread - whatever the wrapped sink's flush/stats do
+        // (block, panic), an emit into a full bounded queue returns its error promptly
+        struct Hostile2 {
+            sh: Arc<Shared>,
+            gate: Mutex<Receiver<String>>,
+            mode: &'static str,
+            hold: Arc<AtomicBool>,
+        }
+        impl MetricSink for Hostile2 {
+            fn emit(&self, m: &str) -> io::Result<usize> {
+                self.sh.entered.lock().unwrap().push(m.to_string());
+                let _ = self.gate.lock().unwrap().recv_timeout(Duration::from_secs(20));
+                self.sh.finished.fetch_add(1, Ordering::SeqCst);
+                Ok(m.len())
+            }
+            fn flush(&self) -> io::Result<()> {
+                if self.mode == "panic" {
+                    panic!("wrapped sink's flush panics");
+                }
+                let t = Instant::now();
+                while self.hold.load(Ordering::SeqCst) && t.elapsed() < Duration::from_secs(8) {
+                    std::thread::sleep(Duration::from_millis(5));
+                }
+                Ok(())
+            }
+        }
+        for mode in ["panic", "block"] {
+            let sh = Arc::new(Shared { entered: Mutex::new(vec![]), finished: AtomicUsize::new(0), dropped: AtomicBool::new(false), outcomes: Mutex::new(vec![]) });
+            let (tx, rx) = channel::<String>();
+            let hold = Arc::new(AtomicBool::new(true));
+            let q = QueuingMetricSink::with_capacity(Hostile2 { sh: sh.clone(), gate: Mutex::new(rx), mode, hold: hold.clone() }, 1);
+            let _ = q.emit("first:1|c");
+            let _ = wait_until(|| sh.entered.lock().unwrap().len() >= 1, 1500);
+            let _ = q.emit("second:1|c"); // fills the queue
+            let q2 = q.clone();
+            let done = Arc::new(AtomicBool::new(false));
+            let d2 = done.clone();
+            let h = std::thread::spawn(move || {
+                let r = std::panic::catch_unwind(std::panic::AssertUnwindSafe(|| q2.emit("third:1|c").is_err()));
+                d2.store(true, Ordering::SeqCst);
+                r
+            });
+            let returned = wait_until(|| done.load(Ordering::SeqCst), 1500);
+            hold.store(false, Ordering::SeqCst);
+            let r = h.join().ok();
+            if !returned {
+                viol.push(json!({"prop": "C10", "clause": "emit-never-blocks", "detail": "emit into a full queue did not return within 1.5 s while the wrapped sink's flush was blocked (the wrapped sink runs on the caller's thread)".to_string()}));
+            } else if let Some(Err(_)) = r {
+                viol.push(json!({"prop": "C10", "clause": "emit-never-runs-sink", "detail": "emit into a full queue panicked with the wrapped sink's panic (the wrapped sink runs on the caller's thread)".to_string()}));
+            }
+            for _ in 0..6 {
+                let _ = tx.send("ok".to_string());
+            }
+            std::mem::forget(tx);
+        }
     } else if kind == "queue-drop-calls-sink" {
         // C09: dropping a handle never blocks and never panics, whatever the wrapped sink does - so it must not call into
         // the wrapped sink on the dropping thread
@@ -433,6 +489,10 @@ fn probe(sc: &Value) -> Value {
             let client = cadence::StatsdClient::from_sink("p", q.clone());
             let r = client.flush().map_err(|e| io::Error::new(io::ErrorKind::Other, e.to_string()));
             check("through StatsdClient::flush", r, true, &mut viol);
+            fail.store(true, Ordering::SeqCst);
+            let r = client.flush().map_err(|e| io::Error::new(io::ErrorKind::Other, e.to_string()));
+            check("through StatsdClient::flush while the wrapped flush fails", r, false, &mut viol);
+            fail.store(false, Ordering::SeqCst);
             for _ in 0..4 {
                 let _ = tx.send("ok".to_string());
             }
